@@ -1183,9 +1183,12 @@ def primesieve(n):
                 n //= p
                 m += 1
             mult[i] = m
-    sieve_cache = sieve
+    # replace the three tables so that an interrupt in between cannot leave
+    # them inconsistent: invalidate first, publish the sieve last
+    sieve_cache = []
     primes_cache = primes
     mult_cache = mult
+    sieve_cache = sieve
     return sieve, primes, mult
 
 def zetasum_sieved(critical_line, sre, sim, a, n, wp):
